@@ -8,7 +8,7 @@ Direct checks: pack = an independent hand-written wire encoder (WIRE below, writ
 documentation, not from the layout table), parse(pack(v)) = v field by field, nothing left unread.
 """
 from common import *
-import io, struct
+import io, struct, signal
 from pycoin.symbols.btc import network
 from pycoin.message.InvItem import InvItem
 from pycoin.message.PeerAddress import PeerAddress
@@ -52,7 +52,7 @@ def _o_parse(parse_f, canon_f):
     def o(b):
         f = io.BytesIO(b)
         try:
-            obj = parse_f(f)
+            obj = guarded(lambda: parse_f(f))
             c = canon_f(obj)
         except Exception as e:
             return _exn_code(e)
@@ -64,8 +64,8 @@ def _o_mbpost(b):
     f = io.BytesIO(b)
     pairs = [t.split(":") for t in LAYOUTS["merkleblock"].split()]
     try:
-        d = S.parse_as_dict([p[0] for p in pairs], "".join(p[1] for p in pairs), f)
-        d = MPP.post_unpack_merkleblock(d, f)
+        d = guarded(lambda: S.parse_as_dict([p[0] for p in pairs], "".join(p[1] for p in pairs), f))
+        d = guarded(lambda: MPP.post_unpack_merkleblock(d, f))
     except Exception as e:
         return _exn_code(e)
     return b"\0" + b"".join(d["tx_hashes"])
@@ -120,8 +120,8 @@ def tok(v):
         return "x" + bytes(v).hex()
     if isinstance(v, (tuple, list)):
         return "(" + ",".join(tok(x) for x in v) + ")"
-    if isinstance(v, PeerAddress):
-        return "A(%s,%s,%s)" % (tok(v.services), tok(v.ip_bin), tok(v.port))
+    if isinstance(v, PeerAddress):      # raw constructor arguments (= the object state unless the constructor is changed)
+        return "A(%s,%s,%s)" % tuple(tok(x) for x in pa_raw(v))
     if isinstance(v, InvItem):
         return "V(%s,%s)" % (tok(v.item_type), tok(v.data))
     if isinstance(v, Tx):
@@ -191,7 +191,7 @@ def untok(t):
             expect(",")
             p = value()
             expect(")")
-            return PeerAddress(s, ip, p)
+            return mkpa(s, ip, p)
         if c == "V":
             pos[0] += 1
             expect("(")
@@ -218,9 +218,30 @@ def unkwtok(t):
 
 
 # ---- implementation thunks ------------------------------------------------------------------------
+class ImplTimeout(Exception):
+    pass
+
+
+def _on_alarm(signum, frame):
+    raise ImplTimeout("implementation call did not return within the time limit")
+
+
+def guarded(f, secs=2.0):
+    """run f() under a wall-clock limit: a changed implementation may loop on an attacker-chosen array count"""
+    old = signal.signal(signal.SIGALRM, _on_alarm)
+    signal.setitimer(signal.ITIMER_REAL, secs)
+    try:
+        return f()
+    finally:
+        signal.setitimer(signal.ITIMER_REAL, 0)
+        signal.signal(signal.SIGALRM, old)
+
+
 def ccall(f, *a, **kw):
     try:
-        return f(*a, **kw)
+        return guarded(lambda: f(*a, **kw))
+    except ImplTimeout:
+        return "!TIMEOUT"
     except Exception as e:
         return "!" + exn_tag(e)
 
@@ -366,6 +387,40 @@ CODEC_OF_WIRE = {"u8": "1", "u16be": "h", "u32": "L", "u48": "6", "u64": "Q", "c
                  "ip16": "@", "bool": "b", "optbool": "O", "netaddr": "A", "inv": "v", "tx": "T", "block": "B", "header": "z"}
 
 
+IP4_MAPPED_PREFIX = bytes.fromhex("00000000000000000000ffff")     # RFC 4291 IPv4-mapped prefix (independent of pycoin)
+
+
+def mkpa(services, ip, port):
+    """PeerAddress from raw arguments; remembers what the 16 wire bytes must be (4 bytes -> IPv4-mapped, 16 kept)"""
+    pa = PeerAddress(services, ip, port)
+    pa._c16_raw = (services, IP4_MAPPED_PREFIX + ip if len(ip) == 4 else ip, port)
+    return pa
+
+
+def pa_raw(v):
+    return getattr(v, "_c16_raw", None) or (v.services, v.ip_bin, v.port)
+
+
+def cvw(v):
+    """canonical form of a WANTED value: PeerAddress by its raw constructor arguments"""
+    if isinstance(v, PeerAddress):
+        sv, ip, port = pa_raw(v)
+        return "A(%s %s %s)" % (cv(sv), cv(ip), cv(port))
+    if isinstance(v, (tuple, list)):
+        return "(" + " ".join(cvw(x) for x in v) + ")"
+    return cv(v)
+
+
+def special_ips(rng):
+    """IPv6 addresses with 0..16 leading zero bytes, ::, ::1, ::ffff:a.b.c.d, ::fffe:..., ::1:2:3, and 4-byte IPv4"""
+    out = [b"\0" * 16, b"\0" * 15 + b"\1", b"\0" * 10 + b"\xff\xff" + bytes([1, 2, 3, 4]), b"\0" * 10 + b"\xff\xfe" + bytes([1, 2, 3, 4]),
+           b"\0" * 10 + b"\xfe\xff" + bytes([1, 2, 3, 4]), b"\0" * 10 + bytes([0, 1, 0, 2, 0, 3]), b"\0" * 12 + bytes([1, 2, 3, 4]),
+           b"\0" * 9 + b"\1" + b"\xff\xff" + bytes([1, 2, 3, 4]), b"\xff" * 16, bytes([1, 2, 3, 4]), b"\0" * 4, b"\xff" * 4, bytes([127, 0, 0, 1])]
+    for k in range(0, 17):
+        out.append(b"\0" * k + bytes(rng.randint(1, 255) for _ in range(16 - k)))
+    return out
+
+
 def compact(n):
     if n < 0xfd:
         return bytes([n])
@@ -402,8 +457,9 @@ def wire1(wt, v):
     if wt == "optbool":
         return b"" if v is None else (b"\1" if v else b"\0")
     if wt == "netaddr":
-        assert len(v.ip_bin) == 16
-        return v.services.to_bytes(8, "little") + v.ip_bin + v.port.to_bytes(2, "big")
+        sv, ip, port = pa_raw(v)
+        assert len(ip) == 16
+        return sv.to_bytes(8, "little") + ip + port.to_bytes(2, "big")
     if wt == "inv":
         return v.item_type.to_bytes(4, "little") + v.data
     if wt == "tx":
@@ -467,11 +523,14 @@ def good_values(wt, rng, O, n_random=2):
     if wt == "hash32":
         return [b"\0" * 32, b"\xff" * 32, rb(rng, 32), rb(rng, 32)]
     if wt == "ip16":
-        return [b"\0" * 16, rb(rng, 16), PeerAddress(0, b"\1\2\3\4", 0).ip_bin]
+        return [b"\0" * 16, rb(rng, 16), IP4_MAPPED_PREFIX + b"\1\2\3\4"]
     if wt == "netaddr":
-        return [PeerAddress(0, b"\0\0\0\0", 0), PeerAddress(1, bytes([10, 0, 0, 1]), 8333), PeerAddress(2 ** 64 - 1, b"\xff" * 16, 65535),
-                PeerAddress(1033, rb(rng, 16), rng.getrandbits(16)), PeerAddress(rng.getrandbits(64), rb(rng, 4), rng.getrandbits(16)),
-                PeerAddress(5, b"\0" * 10 + b"\xff\xff" + b"\x7f\0\0\1", 18333)]
+        vals = [mkpa(0, b"\0\0\0\0", 0), mkpa(1, bytes([10, 0, 0, 1]), 8333), mkpa(2 ** 64 - 1, b"\xff" * 16, 65535),
+                mkpa(1033, rb(rng, 16), rng.getrandbits(16)), mkpa(rng.getrandbits(64), rb(rng, 4), rng.getrandbits(16)),
+                mkpa(5, b"\0" * 10 + b"\xff\xff" + b"\x7f\0\0\1", 18333), mkpa(1, b"\0" * 15 + b"\1", 8333), mkpa(0, b"\0" * 16, 1)]
+        ips = special_ips(rng)
+        vals += [mkpa(rng.getrandbits(rng.choice([1, 10, 64])), ips[rng.randrange(len(ips))], rng.getrandbits(16)) for _ in range(max(2, n_random))]
+        return vals
     if wt == "inv":
         return [InvItem(1, rb(rng, 32)), InvItem(2, b"\0" * 32), InvItem(3, b"\xff" * 32), InvItem(0, rb(rng, 32), dont_check=True),
                 InvItem(4, rb(rng, 32), dont_check=True), InvItem((1 << 30) + 1, rb(rng, 32), dont_check=True),
@@ -750,6 +809,8 @@ def model_cases(rng, tier):
             ipb = rb(rng, n)
             cases.append(Case("mkaddr %s %s %s" % (arg(sv), arg(ipb), arg(p)),
                               (lambda sv=sv, ipb=ipb, p=p: ccall(lambda: cv(PeerAddress(sv, ipb, p))))))
+    for ipb in special_ips(rng):
+        cases.append(Case("mkaddr %s %s %s" % (arg(1), arg(ipb), arg(8333)), (lambda ipb=ipb: ccall(lambda: cv(PeerAddress(1, ipb, 8333))))))
     for n in lens:
         for ty in (0, 1, 2, 3, 4, 2 ** 32):
             for dc in (False, True):
@@ -838,8 +899,8 @@ def chk_roundtrip(name, kw):
             return {"kind": "field-missing", "field": fname}
         want = canon_value(kw[fname])
         got = d[fname]
-        if cv(got) != cv(want) or (isinstance(want, (PeerAddress, InvItem)) and got != want):
-            return {"kind": "field-differs", "field": fname, "got": cv(got)[:200], "want": cv(want)[:200]}
+        if cv(got) != cvw(want) or (isinstance(want, InvItem) and got != want):
+            return {"kind": "field-differs", "field": fname, "got": cv(got)[:200], "want": cvw(want)[:200]}
     # nothing left unread
     f = io.BytesIO(b)
     PARSERS[name](f)
@@ -879,8 +940,8 @@ def chk_codec(wt, v):
             (w,) = S.parse_struct(c, f)
         except Exception as e:
             return {"kind": "codec-parse-raises", "detail": "%s: %s" % (type(e).__name__, e)}
-        if cv(w) != cv(v) or f.read() != rest:
-            return {"kind": "codec-roundtrip", "got": cv(w)[:200], "want": cv(v)[:200]}
+        if cv(w) != cvw(v) or f.read() != rest:
+            return {"kind": "codec-roundtrip", "got": cv(w)[:200], "want": cvw(v)[:200]}
     return None
 
 
@@ -888,8 +949,25 @@ def _inp(name, kw):
     return {"name": name, "kwargs": kwtok(kw) if len(kwtok(kw)) < 20000 else None, "kwargs_long": None if len(kwtok(kw)) < 20000 else kwtok(kw)}
 
 
+def addr_form_cases(rng, O):
+    """IPv4 / IPv6 forms of PeerAddress in version and addr messages and in the bare codec, checked against the RAW
+    constructor arguments (wire bytes and the ip_bin that comes back), not against PeerAddress equality"""
+    for ipb in special_ips(rng):
+        for sv, port in ((1, 8333), (2 ** 64 - 1, 65535), (0, 0)):
+            a = mkpa(sv, ipb, port)
+            yield PropCase("codec", {"wt": "netaddr", "v": tok(a)}, (lambda a=a: chk_codec("netaddr", a)))
+            base = gen_kwargs("version", rng, O)
+            for fld in ("remote_address", "local_address"):
+                kw = dict(base, **{fld: a})
+                yield PropCase("roundtrip", _inp("version", kw), (lambda kw=kw: chk_roundtrip("version", kw)))
+            kw = {"date_address_tuples": ((rng.getrandbits(32), a), (0, mkpa(1, b"\1\2\3\4", 1)), (2 ** 32 - 1, a))}
+            yield PropCase("roundtrip", _inp("addr", kw), (lambda kw=kw: chk_roundtrip("addr", kw)))
+
+
 def prop_cases(rng, tier):
     O = Objs(rng)
+    for pc in addr_form_cases(rng, O):
+        yield pc
     for name in WIRE:
         yield PropCase("layout", {"name": name}, (lambda name=name: chk_layout_is_protocol(name)))
     if sorted(LAYOUTS) != sorted(WIRE):
@@ -904,6 +982,20 @@ def prop_cases(rng, tier):
     for p in [b"", b"abc", b"\0" * 10] + [rb(rng, rng.randint(1, 80)) for _ in range(20)]:
         kw = {"payload": p, "signature": b"sig"}
         yield PropCase("roundtrip", _inp("alert", kw), (lambda kw=kw: chk_roundtrip("alert", kw)))
+
+
+def _guard_chk(f):
+    def g(*a, **kw):
+        try:
+            return guarded(lambda: f(*a, **kw), 5.0)
+        except ImplTimeout as e:
+            return {"kind": "implementation-hangs", "detail": str(e)}
+    g.__name__ = f.__name__
+    return g
+
+
+chk_roundtrip = _guard_chk(chk_roundtrip)
+chk_codec = _guard_chk(chk_codec)
 
 
 def replay_input(check, inp):
@@ -927,6 +1019,9 @@ def search(rng, tier, disagreements, known_ids):
     """after a proof/correspondence break: look for an input on which the property itself fails"""
     cands = []
     O = Objs(rng)
+    if any(d["case"].startswith("mkaddr") or "A" in d["case"].split(" ")[1] or d["case"].split(" ")[1] in ("sversion", "saddr")
+           for d in disagreements[:200]):
+        cands += list(addr_form_cases(rng, O))
     for d in disagreements[:60]:
         toks = d["case"].split(" ")
         try:
